@@ -19,6 +19,16 @@ func WithClient(ctx context.Context, c int) context.Context {
 	return context.WithValue(ctx, clientKey{}, c)
 }
 
+type genKey struct{}
+
+// WithGen marks a context with the incarnation (simulated process) it belongs to. The
+// engine derives every context it uses from the one given to coercion.New or to an API
+// call (context.WithoutCancel keeps values), so a scheduling point with a context in
+// scope can tell a goroutine of the live process from one of a dead process.
+func WithGen(ctx context.Context, gen int) context.Context {
+	return context.WithValue(ctx, genKey{}, gen)
+}
+
 func clientOf(ctx context.Context) int {
 	if v, ok := ctx.Value(clientKey{}).(int); ok {
 		return v
